@@ -237,13 +237,17 @@ def filter_args(func, ignore_lst, args=(), kwargs=dict()):
         return {"*": args, "**": kwargs}
     arg_sig = inspect.signature(func)
     arg_names = []
-    arg_defaults = []
+    arg_defaults = {}
+    arg_posonlyargs = []
     arg_kwonlyargs = []
     arg_varargs = None
     arg_varkw = None
     for param in arg_sig.parameters.values():
         if param.kind is param.POSITIONAL_OR_KEYWORD:
             arg_names.append(param.name)
+        elif param.kind is param.POSITIONAL_ONLY:
+            arg_names.append(param.name)
+            arg_posonlyargs.append(param.name)
         elif param.kind is param.KEYWORD_ONLY:
             arg_names.append(param.name)
             arg_kwonlyargs.append(param.name)
@@ -252,7 +256,7 @@ def filter_args(func, ignore_lst, args=(), kwargs=dict()):
         elif param.kind is param.VAR_KEYWORD:
             arg_varkw = param.name
         if param.default is not param.empty:
-            arg_defaults.append(param.default)
+            arg_defaults[param.name] = param.default
     if inspect.ismethod(func):
         # First argument is 'self', it has been removed by Python
         # we need to add it back:
@@ -270,9 +274,13 @@ def filter_args(func, ignore_lst, args=(), kwargs=dict()):
 
     _, name = get_func_name(func, resolv_alias=False)
     arg_dict = dict()
-    arg_position = -1
+    # Number of parameters that can be bound positionally: with *args, the
+    # keyword-only parameters are never reached by positional arguments.
+    n_positional = len(arg_names) - len(arg_kwonlyargs)
     for arg_position, arg_name in enumerate(arg_names):
-        if arg_position < len(args):
+        if arg_position < len(args) and (
+            arg_position < n_positional or arg_varargs is None
+        ):
             # Positional argument or keyword argument given as positional
             if arg_name not in arg_kwonlyargs:
                 arg_dict[arg_name] = args[arg_position]
@@ -289,12 +297,11 @@ def filter_args(func, ignore_lst, args=(), kwargs=dict()):
                 )
 
         else:
-            position = arg_position - len(arg_names)
-            if arg_name in kwargs:
+            if arg_name in kwargs and arg_name not in arg_posonlyargs:
                 arg_dict[arg_name] = kwargs[arg_name]
             else:
                 try:
-                    arg_dict[arg_name] = arg_defaults[position]
+                    arg_dict[arg_name] = arg_defaults[arg_name]
                 except (IndexError, KeyError) as e:
                     # Missing argument
                     raise ValueError(
@@ -308,7 +315,7 @@ def filter_args(func, ignore_lst, args=(), kwargs=dict()):
 
     varkwargs = dict()
     for arg_name, arg_value in sorted(kwargs.items()):
-        if arg_name in arg_dict:
+        if arg_name in arg_dict and arg_name not in arg_posonlyargs:
             arg_dict[arg_name] = arg_value
         elif arg_varkw is not None:
             varkwargs[arg_name] = arg_value
@@ -321,7 +328,7 @@ def filter_args(func, ignore_lst, args=(), kwargs=dict()):
     if arg_varkw is not None:
         arg_dict["**"] = varkwargs
     if arg_varargs is not None:
-        varargs = args[arg_position + 1 :]
+        varargs = args[n_positional:]
         arg_dict["*"] = varargs
 
     # Now remove the arguments to be ignored
